@@ -107,7 +107,8 @@ impl Ctx {
         *self.model_skipped.entry(why.to_string()).or_insert(0) += 1;
     }
     pub fn violation(&mut self, kind: &'static str, stage: &str, what: &str, case: Value, observed: Value, expected: Value) {
-        if self.violations.len() < 50 {
+        // at most 50 recorded per kind, so that many model disagreements never crowd out a property failure
+        if self.violations.iter().filter(|v| v.kind == kind).count() < 50 {
             self.violations.push(Violation { kind, stage: stage.to_string(), what: what.to_string(), case, observed, expected });
         } else {
             self.count("violations_not_recorded");
